@@ -9,14 +9,15 @@ Open Scope N_scope.
 Definition spec_ok (cs : tcase) : bool :=
   match cs with
   | TraceCase c t init o orc ft r after evs =>
-      match ft, r with
-      | None, ROk =>
+      (* every ACKNOWLEDGED operation, whether or not an I/O error was injected on the way *)
+      match r with
+      | ROk =>
           durability_ok evs &&
           match final_name init o with
           | Some (f, reserve) => protocol_complete_ok f reserve evs
           | None => true
           end
-      | _, _ => true
+      | RErr => true
       end
   end.
 
